@@ -385,7 +385,11 @@ func (u *Unmarshaler) generateMap(keyType, elemType reflect.Type, mapValue any) 
 					return emptyValue, err
 				}
 
-				targetValue.SetMapIndex(key, target.Elem())
+				if fieldElemKind == reflect.Ptr {
+					targetValue.SetMapIndex(key, target)
+				} else {
+					targetValue.SetMapIndex(key, target.Elem())
+				}
 			default:
 				if dereffedElemKind != keythValue.Kind() {
 					return emptyValue, errTypeMismatch
